@@ -140,6 +140,14 @@ def gen_trees(rng, malformed=False):
         routes.append([net, tree])
         net_keys.append([net, km])
     rng.shuffle(net_keys)
+    # node classes: some trees are built from user-defined subclasses of RoutingTree (root, inner nodes,
+    # leaf-bearing nodes alike); the model does not distinguish them (a subclass instance is a RoutingTree)
+    classes = rng.choice(["plain", "mixed", "mixed", "all-sub"])
+    for _, tree in routes:
+        for n in nodes_of(tree):
+            del n[3:]
+            if classes != "plain":
+                n.append(rng.choice([1, 2]) if classes == "all-sub" else rng.choice([0, 0, 1, 2]))
     kind = "valid"
     if malformed:
         kind = rng.choice(["none-subtree", "core-subtree", "no-key", "leaf-root", "bad-route"])
@@ -158,7 +166,7 @@ def gen_trees(rng, malformed=False):
             net_keys = [nk for nk in net_keys if nk[0] != net]
         elif kind == "leaf-root":
             routes[rng.randrange(len(routes))][1] = g.leaf()
-    return dict(kind="trees", routes=routes, net_keys=net_keys, wf=kind, share=share)
+    return dict(kind="trees", routes=routes, net_keys=net_keys, wf=kind, share=share, classes=classes)
 
 
 # ====================================================================== generator (ii): loads
@@ -264,7 +272,7 @@ def gen_load(rng, size=None, malformed=False):
             chips[0][2]["bufsize"] = 16 * max(0, len(es) - 1)
     mode = "tables" if multi or rng.random() < 0.3 else "entries"
     return dict(kind="load", chips=chips, tables=tables, app_id=app_id, mode=mode,
-                context=rng.random() < 0.3, wf=wf)
+                context=rng.random() < 0.3, wf=wf, sub_entries=rng.random() < 0.3)
 
 
 # ====================================================================== enumerations
@@ -283,10 +291,13 @@ def fork_pair_cases(rng, quick):
     for a, b in pairs:
         ka = [kinds[i]() for i in range(5) if a >> i & 1]
         kb = [kinds[i]() for i in range(5) if b >> i & 1]
-        t1 = ["N", [2, 2], ka]
-        t2 = ["N", [3, 3], [[4, ["N", [2, 2], kb]]]]
+        t1 = ["N", [2, 2], ka, a % 3]
+        t2 = ["N", [3, 3], [[4, ["N", [2, 2], kb, b % 3]]], (a + b) % 3]
+        for k in ka + kb:
+            if k[1][0] == "N":
+                k[1].append((a * 7 + b) % 3)
         out.append(dict(kind="trees", routes=[[1, t1], [2, t2]], net_keys=[[2, [5, 0xff]], [1, [5, 0xff]]],
-                        wf="valid", share="enumerated"))
+                        wf="valid", share="enumerated", classes="enumerated"))
     return out
 
 
@@ -600,6 +611,9 @@ def run(chk, args):
         if c["kind"] == "trees":
             chk.count("trees:outcome:" + o[0])
             chk.count("trees:share:" + c["share"])
+            chk.count("trees:classes:" + c.get("classes", "plain"))
+            chk.count("trees:subclass-nodes:" + ("0" if not any(len(n) > 3 and n[3] for _, t in c["routes"]
+                                                               for n in nodes_of(t)) else ">=1"))
             chk.count("trees:nets:%d" % len(c["routes"]))
             why = oracle_trees(c, o)
             if why:
@@ -669,7 +683,7 @@ def run(chk, args):
         except RuntimeError as e:
             chk.oblige("correspondence:model-evaluates", False, str(e))
     chk.coverage["rule"] = (
-        "(i) random sets of 1-6 routing trees rooted in a 2x2..6x6 area (chains, bushy trees, leaves with core routes, "
+        "(i) random sets of 1-6 routing trees (in 3 of 4 cases some or all nodes -- roots, inner nodes, leaf-bearing nodes -- are instances of user-defined subclasses of RoutingTree; in 3 of 10 loads every other entry is an instance of a subclass of RoutingTableEntry) rooted in a 2x2..6x6 area (chains, bushy trees, leaves with core routes, "
         "link routes and no route, repeated routes), nets sharing 1-3 (key, mask) pairs, later trees joining a copy "
         "of an earlier subtree unchanged or with a different fork; every 8th case malformed; plus pairs of nets meeting on a "
         "chip with every two subsets of five kinds of child (96 sampled pairs; all 1024 in the thorough tier); "
